@@ -294,7 +294,7 @@ def mutate_xml(rng, xml):
 # ---------------------------------------------------------------------------
 
 STACK_KB = 256          # stack of the reading thread (the default is 8 MiB: recursion per item shows 32x earlier)
-CPU_S = 30              # CPU-time watchdog of one reading (the slowest reading of the unchanged tree takes < 1 s)
+CPU_S = 20              # CPU-time watchdog of one reading (the slowest reading of the unchanged tree takes < 1 s)
 # bytes: high-water(4n) - high-water(n).  A frame per item is >= 32 bytes x 3n items (>= 144 kB at n = 1500); the
 # sort inside symbol_set::insert adds ~5 kB per factor 4 (depth O(log n)), everything else is flat.
 STACK_GROWTH_TOL = 16384
@@ -484,8 +484,11 @@ def run_scale(chk, exe, rng, quick, only=None):
                 reqs.append((nm, req + " " + rc2, exp2, fl, None))
     env = {"ASAN_OPTIONS": C.SAN_ENV["ASAN_OPTIONS"] + ":hard_rss_limit_mb=6000"}
     ans = []
-    for at in range(0, len(reqs), 16):          # in batches: a tree on which everything hangs must not take hours
-        part, _ = C.run_lines(exe, [r[1] for r in reqs[at:at + 16]], env=env, timeout=3600)
+    at = 0
+    while at < len(reqs):          # in batches: a tree on which everything hangs must not take hours
+        step = 1 if any(a.startswith("timeout") for a in ans) else 8
+        part, _ = C.run_lines(exe, [r[1] for r in reqs[at:at + step]], env=env, timeout=3600)
+        at += step
         ans += part
         if sum(1 for a in ans if a.startswith("timeout")) >= 3:
             chk.notes.append("scaling stream stopped after 3 watchdog timeouts (%d of %d requests run)" % (len(ans), len(reqs)))
@@ -517,6 +520,7 @@ def run_scale(chk, exe, rng, quick, only=None):
                           tags={"kind": "scale", "site": "stack", "family": nm})
             continue
         if a.startswith("timeout"):
+            SUSPECT[0] = True
             chk.violation("reading does not terminate within the CPU watchdog (%s): %s" % (a, nm), rep,
                           tags={"kind": "scale", "site": "timeout", "family": nm})
             continue
@@ -564,12 +568,17 @@ def run_scale(chk, exe, rng, quick, only=None):
 # running the differential harness under a watchdog: a reading that does not return is a result
 # ---------------------------------------------------------------------------
 
-STALL_S = 240        # wall seconds without a single answer before the current request is suspected
-CONFIRM_CPU_S = 30   # CPU seconds the suspected request gets on its own (a normal one takes milliseconds)
+STALL_S = 150       # wall seconds without a single answer before the current request is suspected
+STALL_AGAIN_S = 25  # the same once a non-terminating request has been confirmed
+MAX_TIMEOUTS = 3    # confirmed non-terminating requests after which the rest of the stream is skipped
+CONFIRM_CPU_S = 20   # CPU seconds the suspected request gets on its own (a normal one takes milliseconds)
 
 
 def _limit_cpu():
     resource.setrlimit(resource.RLIMIT_CPU, (CONFIRM_CPU_S, CONFIRM_CPU_S + 2))
+
+
+SUSPECT = [False]     # a reading has already been seen not to terminate: do not wait long for the next ones
 
 
 def run_lines_wd(exe, lines, env=None, max_restarts=25):
@@ -608,7 +617,7 @@ def run_lines_wd(exe, lines, env=None, max_restarts=25):
                     break
                 if len(got) != last:
                     last, last_t = len(got), time.time()
-                elif time.time() - last_t > STALL_S:
+                elif time.time() - last_t > (STALL_AGAIN_S if SUSPECT[0] else STALL_S):
                     hung = True
                     p.kill()
                     tr.join(10)
@@ -629,6 +638,7 @@ def run_lines_wd(exe, lines, env=None, max_restarts=25):
             out = q.stdout.decode("utf-8", "replace").splitlines()
             if q.returncode in (-signal.SIGXCPU, -signal.SIGKILL):
                 answers.append("timeout cpu=%d" % CONFIRM_CPU_S)
+                SUSPECT[0] = True
             elif q.returncode == 0 and out:
                 answers.append(out[0])
             else:
@@ -642,7 +652,7 @@ def run_lines_wd(exe, lines, env=None, max_restarts=25):
             deaths.append((idx, rc, tail))
             answers.append("died rc=%d" % rc)
         start = idx + 1
-        if len(deaths) + sum(1 for a in answers if a.startswith("timeout")) >= max_restarts:
+        if len(deaths) >= max_restarts or sum(1 for a in answers if a.startswith("timeout")) >= (1 if SUSPECT[0] else MAX_TIMEOUTS):
             answers += ["skipped"] * (len(lines) - start)
             break
     try:
@@ -653,12 +663,21 @@ def run_lines_wd(exe, lines, env=None, max_restarts=25):
 
 
 def site_of(stderr_tail):
-    """Where the sanitizer fired (function of vita nearest to the top of the stack)."""
-    for fn in ("columns_info::build", "dataframe::read_csv", "dataframe::read_xrff", "dataframe::to_example",
-               "parse_line", "has_header", "guess_delimiter"):
-        if fn in stderr_tail:
-            return fn
-    return "?"
+    """Where the sanitizer fired: the function of vita nearest to the top of the stack of the access itself (the
+    stacks of the allocation / deallocation that follow in the report are not looked at)."""
+    at = max(stderr_tail.rfind("ERROR: AddressSanitizer"), stderr_tail.rfind("runtime error:"))
+    if at >= 0:
+        stderr_tail = stderr_tail[at:]
+        for stop in ("allocated by", "freed by", "is located", "previously allocated", "\n\n"):
+            cut = stderr_tail.find(stop)
+            if cut > 0:
+                stderr_tail = stderr_tail[:cut]
+    first = [(stderr_tail.find(fn), fn) for fn in
+             ("columns_info::build", "dataframe::read_csv", "dataframe::read_xrff", "dataframe::to_example",
+              "dataframe::read_record", "dataframe::is_valid", "vita::label", "parse_line", "get_input", "has_header",
+              "guess_delimiter", "setup_terminals", "category_set")]
+    first = sorted(x for x in first if x[0] >= 0)
+    return first[0][1] if first else "?"
 
 
 READER_SOURCES = ["src/kernel/gp/src/dataframe.cc", "src/kernel/gp/src/dataframe.h", "src/utility/pocket_csv.h",
@@ -832,37 +851,40 @@ def run(chk, replay=None):
             if rng.chance(0.3):
                 cases.append(("xrff", "xrff 0 " + L.hx(data), None, "xml:random-bytes"))
 
-    # ---- `is_valid` on hand-built dataframes and `read` on missing files ---------------------------------------
-    if extra:
-        xa, xdeaths = run_lines_wd(scale_exe, extra)
-        vi = [i for i, ln in enumerate(extra) if ln.startswith("valid")]
-        xm = dict(zip(vi, C.run_driver("c10_driver", [extra[i] for i in vi]))) if drv_ok and vi else {}
-        for i, ln in enumerate(extra):
-            a = xa[i] if i < len(xa) else "skipped"
-            kind = ln.split()[0]
-            chk.seen(ln, nontrivial=True)
-            chk.count("%s:%s" % (kind, " ".join(a.split()[:3]) if kind == "valid" else a))
-            rep = {"kind": kind, "line": ln, "cpp": a[:300]}
-            if a.startswith(("died", "skipped", "timeout", "nonstd", "bad-op")):
-                chk.violation("%s: %s -> %s" % ("is_valid() on a hand-built dataframe" if kind == "valid" else
-                                                 "dataframe::read on a missing file", ln[:120], a[:120]), rep,
-                              tags={"kind": kind, "site": "fault"})
-                continue
-            if kind == "valid":
-                if "valid=1" in a and "eqin=0" in a:
-                    chk.violation("is_valid() accepts a dataframe whose examples have different numbers of inputs: " + ln,
-                                  rep, tags={"kind": "valid", "site": "is_valid-unequal-inputs"})
+    def check_extra():
+        # ---- `is_valid` on hand-built dataframes and `read` on missing files ---------------------------------------
+        if extra:
+            xa, xdeaths = run_lines_wd(scale_exe, extra)
+            vi = [i for i, ln in enumerate(extra) if ln.startswith("valid")]
+            xm = dict(zip(vi, C.run_driver("c10_driver", [extra[i] for i in vi]))) if drv_ok and vi else {}
+            for i, ln in enumerate(extra):
+                a = xa[i] if i < len(xa) else "skipped"
+                kind = ln.split()[0]
+                chk.seen(ln, nontrivial=True)
+                chk.count("%s:%s" % (kind, " ".join(a.split()[:3]) if kind == "valid" else a))
+                rep = {"kind": kind, "line": ln, "cpp": a[:300]}
+                if a == "skipped":
                     continue
-                if i in xm and xm[i] != a:
-                    rep["model"] = xm[i]
-                    # the model of is_valid is characterised by `is_valid_spec`: a disagreement is a wrong answer of the code
-                    chk.violation("is_valid() answers `%s` where its specification (is_valid_spec) says `%s`: %s"
-                                  % (a, xm[i], ln), rep, tags={"kind": "valid", "site": "is_valid-spec"})
-            elif not a.startswith("exc"):
-                chk.violation("dataframe::read of a missing file does not raise a standard exception: " + a[:100], rep,
-                              tags={"kind": "path", "site": "missing-file"})
+                if a.startswith(("died", "timeout", "nonstd", "bad-op")):
+                    chk.violation("%s: %s -> %s" % ("is_valid() on a hand-built dataframe" if kind == "valid" else
+                                                     "dataframe::read on a missing file", ln[:120], a[:120]), rep,
+                                  tags={"kind": kind, "site": "fault"})
+                    continue
+                if kind == "valid":
+                    if "valid=1" in a and "eqin=0" in a:
+                        chk.violation("is_valid() accepts a dataframe whose examples have different numbers of inputs: " + ln,
+                                      rep, tags={"kind": "valid", "site": "is_valid-unequal-inputs"})
+                        continue
+                    if i in xm and xm[i] != a:
+                        rep["model"] = xm[i]
+                        # the model of is_valid is characterised by `is_valid_spec`: a disagreement is a wrong answer of the code
+                        chk.violation("is_valid() answers `%s` where its specification (is_valid_spec) says `%s`: %s"
+                                      % (a, xm[i], ln), rep, tags={"kind": "valid", "site": "is_valid-spec"})
+                elif not a.startswith("exc"):
+                    chk.violation("dataframe::read of a missing file does not raise a standard exception: " + a[:100], rep,
+                                  tags={"kind": "path", "site": "missing-file"})
 
-    phase("generation, valid / path")
+    phase("generation")
     cpp, deaths = run_lines_wd(exe, [c[1] for c in cases])
     phase("vita on the malformed stream")
     xi = [i for i, c in enumerate(cases) if c[0] == "xrff"]
@@ -900,7 +922,10 @@ def run(chk, replay=None):
             chk.violation("reading this input does not terminate (%s; a normal reading takes milliseconds): %s"
                           % (a, ln[:160]), rep, tags={"kind": kind, "site": "timeout"})
             continue
-        if a.startswith("died") or a == "skipped":
+        if a == "skipped":          # the stream was cut short after several faults / timeouts (reported above)
+            chk.count("cpp-skipped")
+            continue
+        if a.startswith("died"):
             se = [d for d in deaths if d[0] == i]
             tail = se[0][2] if se else ""
             site = site_of(tail)
@@ -939,6 +964,8 @@ def run(chk, replay=None):
         if i % 131 == 0:
             chk.sample({"line": ln[:140], "cpp": a[:100], "mutation": what})
     chk.cov["model_vs_code_disagreements"] = ndis
+    check_extra()          # after the readings: a violation shown by a reading is reported first
+    phase("is_valid / missing files")
     hist = sorted(((k[4:], v) for k, v in chk.cov["input_distribution"].items() if k.startswith("cpp:")), key=lambda kv: -kv[1])
     chk.cov["outcome_histogram"] = dict(hist)
     C.log("[C10] outcomes of the %d readings: %s" % (len(cases), ", ".join("%s %d" % kv for kv in hist)))
